@@ -153,7 +153,6 @@ func ghostOperand(f *Frame, st, old *State, idx []spec.Expr, args []spec.Expr) T
 	return tv
 }
 
-
 // constant(i, v): the constant stored in the interface value i, in the kind of v.Type.
 func ghostConstant(f *Frame, st, old *State, idx []spec.Expr, args []spec.Expr) TV {
 	x := f.x
